@@ -187,3 +187,8 @@ Definition run_pem (bs : list blk) : V :=
 Definition run_dispatch (p : string * string) : V :=
   Vresult (fun t => VS (stats_ty_name t))
           (stats_dispatch (string_of_hex (fst p)) (string_of_hex (snd p))).
+
+(* ---- live suite: direct oracle only (Stats objects reported by a connected
+        pair); the constant observation exists because the driver expects a
+        case file per suite — nothing is compared here ---- *)
+Definition run_live (_ : bool) : V := VS "ok".
